@@ -17,7 +17,7 @@ SHRINK_LISTS = [('items',), ('items', '*', 'inner', '*'), ('items', '*', 'cuts')
                 ('cuts',)]
 EXPECTED_PROBES = ['fragmented', 'ctl_between_fragments', 'empty_fragment',
                    'nonminimal_len', 'len64', 'reply_and_frames_same_read',
-                   'cut_inside_header', 'final_close']
+                   'cut_inside_header', 'final_close', 'app_close_mid_stream']
 
 
 def plan(tier):
@@ -37,6 +37,17 @@ def make_case(family, i, rng, tier):
         while len(reason.encode('utf-8')) > 123:
             reason = reason[:-1]
         case['close'] = {'code': code, 'reason': reason}
+    if not big and rng.random() < 0.2:
+        # the application starts the closing handshake at a seeded message;
+        # the server keeps sending, everything must still be delivered
+        enc0 = ST.encode_items(items)
+        if enc0.expected:
+            k = rng.randrange(len(enc0.expected))
+            name = enc0.expected[k][0]
+            case['app_close_at'] = {'name': name,
+                                    'nth': sum(1 for e in enc0.expected[:k]
+                                               if e[0] == name)}
+            case.setdefault('close', {'code': 1000, 'reason': u'ack'})
     case.update(ST.seg_fields(rng, big))
     case['epoch'] = rng.choice([0, 1.7e9])
     case['poll'] = rng.choice([5, 5, 0.5, 60])
@@ -55,10 +66,18 @@ def build(case):
         tail = [{'op': 'await_close', 'timeout': 5000000}, S.eof()]
     else:
         tail = [S.eof(after=1000)]
+    app = None
+    if case.get('app_close_at'):
+        app = [{'when': dict(case['app_close_at']),
+                'do': [{'op': 'close', 'code': 1000, 'reason': 'app'}]}]
+        if cl:
+            enc.expected[-1] = ('closed',) + enc.expected[-1][1:]
+        enc.probes['app_close_mid_stream'] += 1
     scenario = ST.stream_scenario(
-        case, enc, tail,
+        case, enc, tail, app=app,
         connect={'poll': case.get('poll', 5),
-                 'auto_pong': case.get('auto_pong', True)})
+                 'auto_pong': case.get('auto_pong', True),
+                 'close_timeout': None})
     ncuts = len(scenario['conns'][0]['server'][1]['cuts'])
     return scenario, enc.expected, enc.probes, \
         ''.join(enc.layout) + '/%d' % ncuts
